@@ -30,6 +30,15 @@
 //
 //	ClientSettings       observed (remembered for later switches), relayed as received
 //
+// Trailing bytes. A packet of a known type may carry more bytes than Gate's decoder for the
+// type reads (modded peers, protocol revisions that append a field). Gate's frame decoder
+// reports that as proto.ErrDecoderLeftBytes together with the decoded packet, the connection
+// reader ignores exactly this error, and the handlers above forward pc.Payload, i.e. the WHOLE
+// frame content: such a packet is relayed as received like any other. About a fifth of the
+// known packets of every type above except plugin messages (whose decoder takes the rest of
+// the frame as data) therefore carry 1..16 random extra bytes behind a well-formed body.
+// Checked on the unchanged tree: every one of these types is relayed unchanged with them.
+//
 // NOT included because the proxy intercepts them (consumes, answers, re-encodes or forwards
 // only under content conditions): Disconnect, JoinGame, Respawn-on-switch logic,
 // AvailableCommands, TabCompleteRequest/Response, ResourcePackRequest/Response/Remove,
@@ -162,9 +171,12 @@ func idBytes(id int) []byte {
 
 // knownGen builds the body (everything after the packet id) of one packet of a known type.
 type knownGen struct {
-	name  string
-	id    int
-	build func(rng *rand.Rand, pv proto.Protocol, seq int) (body []byte, flavours []string)
+	name string
+	id   int
+	// readsToEnd: Gate's decoder of the type takes everything up to the end of the frame as
+	// data (plugin message), so there is no such thing as bytes behind the body
+	readsToEnd bool
+	build      func(rng *rand.Rand, pv proto.Protocol, seq int) (body []byte, flavours []string)
 }
 
 func names(rng *rand.Rand, seq, i int) (string, string) {
@@ -538,7 +550,7 @@ func knownRelayed(dir proto.Direction, pv proto.Protocol) []knownGen {
 			return
 		}
 		if id, found := reg.PacketID(pk); found {
-			out = append(out, knownGen{name: name, id: int(id), build: b})
+			out = append(out, knownGen{name: name, id: int(id), build: b, readsToEnd: name == "PluginMessage"})
 		}
 	}
 	if dir == proto.ServerBound {
@@ -564,7 +576,11 @@ func knownRelayed(dir proto.Direction, pv proto.Protocol) []knownGen {
 // decodableByGate pre-checks a hand-built packet against the decoder the proxy will run on it
 // (a known packet that does not decode makes the proxy close the connection, which is not the
 // relay property). Workload selection only: a rejected packet is not sent, and counted.
-func decodableByGate(dir proto.Direction, pv proto.Protocol, payload []byte) error {
+//
+// leftBytesOK: the packet carries trailing bytes on purpose; Gate's decoder must then decode
+// the body and leave exactly such a rest (proto.ErrDecoderLeftBytes, which the connection
+// reader ignores: the packet context still reaches the session handler).
+func decodableByGate(dir proto.Direction, pv proto.Protocol, payload []byte, leftBytesOK bool) error {
 	reg := state.FromDirection(dir, state.Play, pv)
 	id, n := 0, 0
 	for ; n < len(payload); n++ { // the harness's own VarInt reader
@@ -591,8 +607,11 @@ func decodableByGate(dir proto.Direction, pv proto.Protocol, payload []byte) err
 	if err != nil {
 		return err
 	}
-	if rd.Len() != 0 {
+	if rd.Len() != 0 && !leftBytesOK {
 		return fmt.Errorf("%d bytes left", rd.Len())
+	}
+	if rd.Len() == 0 && leftBytesOK {
+		return fmt.Errorf("trailing bytes were consumed by the decoder")
 	}
 	return nil
 }
